@@ -59,6 +59,7 @@ def gen_ops(tier, rng):
         ds = dg.gen_dataset(rng, n_inputs=rng.choice([1, 2, 3]), with_clim=True)
         if k % 5 == 4:
             ds.cfg["obsrange"] = (0.0, 2.0)          # -obsrange selects on the observed value, not on the anomaly
+            ds = dg.with_obs_disagreement(ds)        # a quarter: own observations (climatology file included) that disagree across 0 / 2
         if k % 5 == 1:
             ds = dg.add_field_options(ds, rng)       # -obs FIELD / -fcst FIELD: the climatology's -fcst field is used
         dims = dg.oracle_dims(ds)
